@@ -170,7 +170,7 @@ w("""### 2.3 Back ends
 
 quick (per property): its Verus units in parallel (1–4 s each) + its BEC contracts at the quick scope + K1 / K3 where listed:
 2–27 s per property on 16 cores (C05: ≈ 90 s because of K3) (BEC binaries cached under `/verif/bec/target*`, rebuilt when `/repo` changes).
-thorough: the thorough scopes and 2 M random cases (<= ~100 s) + K2 for C07 (≈ 10 min). Generated unit files and Kani
+thorough: the thorough scopes and 5–15 M random cases per contract (10 s – 4 min per property, up to 550 M contract evaluations) + K2 for C07 (≈ 10 min). Generated unit files and Kani
 copies live in `mktemp -d` directories outside `/repo` and `/verif` and are removed on exit.
 
 ### 2.7 Evidence
